@@ -16,7 +16,9 @@ RULE = ("A zoo transform (any class/composite, images with H != W and C >= 2, co
         "the batch result equals the result on row i alone; (b) a drawn permutation of the batch permutes the results; (c) "
         "appending extra rows leaves the first n results unchanged, so does repeating the rows up to a batch of 9/17/33/64. Tolerance 1e-9 relative in float64, 1e-3 in float32 (BLAS "
         "blocks differently per batch size; mixing bugs are O(1) by construction). Non-trivial: >= 2 rows whose results "
-        "differ by > 1e-3 and the map is not parameter-free elementwise. Distinct = distinct case JSON.")
+        "differ by > 1e-3 and the map is not parameter-free elementwise. Flows also with an embedding network, contexts with repeated rows in "
+        "cycled order, conditioners with dropout; a difference is excused only if the evaluation reproduces itself and 16x the measured effect "
+        "of an 8-ulp input perturbation explains it. Distinct = distinct case JSON.")
 ASSUMPTIONS = ["training mode is out of scope (batch statistics legitimately couple rows)", "sampling is excluded (random)"]
 EXPLANATION = "generated"
 
